@@ -27,17 +27,41 @@ def run(ctx, out):
     rng_u = C.rng_for(seed, PROP, 'ulp')
     recs_foot = [G.gen_foot_record(rng_u) for _ in range(20 if tier == 'quick' else 200)]
     K.count_foot(recs_foot, out)
-    K.check_cl(recs_cl + recs_foot, out, KEEP, PROP, 'cl')
+    # every 5th record dated where epochs leave the 32-bit range (around 2038 / 2106 / 1901, centuries away); own stream
+    recs_cl = G.far_share(recs_cl, C.rng_for(seed, PROP, 'far'))
+    # environment stage: a few records once more through load + classify in a child process (python -O twice, one other
+    # variant of harness.envcheck), judged like the rest and compared with the default in-process run
+    recs_env = K.env_records(recs_cl, C.rng_for(seed, PROP, 'env'), seed, n_opt=2, n_other=1)
+    K.check_cl(recs_cl + recs_foot + recs_env, out, KEEP, PROP, 'cl')
+    large_stage(seed, tier, out)
     out.rule = ('MS: records with threshold-equal and one-ulp-off intensities / increments, runs of length one, '
                 'runs touching either end, through match_storms; CL: the same through the CLI with gaps, comparing '
                 'tables storm, zeta_interval, zeta_interval_storm and the view storm_total_rain_depth; water level logged '
                 '2-3x finer than rainfall with outages opening / closing at readings off the rainfall grid and heavy rain + '
                 'a rise running into and out of them, every recorded storm / rise judged against the gaps of the '
                 'water-level record as written to the input file; rises whose foot increments equal one of the roundings '
-                'of threshold x step. '
+                'of threshold x step; every 5th CL record dated beyond the 32-bit range of epochs; environment stage: 3 '
+                'records through load + classify in a child process (python -O twice, one of TZ=.. / -vvv / other directory '
+                '/ random hash seed), judged alike and compared with the default run; LARGE-INPUT stage, oracle only (nothing '
+                'of it is sent to Coq: reading the literals would dominate): gap-free records of 8300-20000 samples (sizes '
+                'that are not multiples of a block size) through the CLI, with a storm and a rise laid across every sample '
+                'index that is a multiple of 1000 / 1024 / 4096 / 8192 / 10000 / 16384 or of one less (blocks sharing a '
+                'sample), judged by the same oracle (maximal runs, pairing rows, rain depth). '
                 'Non-trivial: contention and >= 1 recorded pair; distinct by flag vectors.')
     out.samples = [dict(level='MS', record=recs[0]), dict(level='CL', record=recs_cl[3])]
     out.assumptions += ['SQLite SUM order: depth compared within 1e-9 relative (exact rational model)']
+
+
+def large_stage(seed, tier, out):
+    """Records longer than the round sizes a program may cut a data interval at, with storms and rises ACROSS the cuts."""
+    rng = C.rng_for(seed, PROP, 'large')
+    if tier == 'quick':
+        sizes = [G.odd_size(rng, 8300, 12000), G.odd_size(rng, 16500, 20000)]
+    else:
+        sizes = [G.odd_size(rng, 8300, 12000), G.odd_size(rng, 16500, 20000), G.odd_size(rng, 4100, 8190),
+                 G.odd_size(rng, 20000, 34000), G.odd_size(rng, 1030, 4090), G.odd_size(rng, 66000, 70000)]
+    recs = [G.gen_edges_spec(rng, n, density=(0.04 if n < 40000 else 0.01)) for n in sizes]
+    K.check_cl(recs, out, KEEP, PROP, 'cl_large', coq=False)
 
 
 def replay(case, out):
